@@ -1193,8 +1193,9 @@ def r_plannergate(F, cfg):
     if len(news) != 1:
         R.violation("planner:FftPlanner:new", "src/plan.rs", "FftPlanner::new not found")
         return R
-    new = news[0]
-    states = G.states[new.id]
+    from .inline import inlined
+    new = inlined(F, news[0])       # a private helper such as `choose_planner()` is judged as part of new()
+    states = dict.fromkeys(new.reachable_blocks(), True)
     for bi, t in _panic_sites(F, new, states):
         R.violation("planner:FftPlanner:panic", new.where(t), "FftPlanner::new has a panic edge")
     order = []
